@@ -23,3 +23,7 @@ check('C09', 'exploration',
       'Every polynomial law of the spatial algebra is evaluated exactly (float64 on small integers) on the full tensor product of determining sets for its per-block degrees plus seeded [-9,9] lattice points, which decides the identity over the reals; laws that divide or need unit quaternions are checked on all 624 integer quaternion directions in [-2,2]^4 x lattice vectors at 1e-12.',
       'Degree table per law (guarded by the extra lattice points); exactness of float64 on integers < 2^53.',
       'exhaustive evaluation on determining sets (tensor-product unisolvence), exact arithmetic', 'DESIGN.md 4/C09')
+check('C13', 'exploration',
+      'Exhaustive insertion of 1-3 levels of jointless bodies (8 pose modes each incl. single-axis and un-normalised quats, all 15 content subsets at depth 1, sibling pairs) at every host of 4 base documents; MuJoCo forward kinematics of the original vs the fused document matched by element name, plus composite mass/COM/inertia of every moving body.',
+      'MuJoCo compiler is the reference; tolerance 5e-6 per level because the loader prints six decimals. Un-normalised jointless quats are a listed known finding (differential: the disagreement must vanish when the harness pre-normalises exactly those quats).',
+      'bounded exhaustive enumeration of documents (programs), reference-engine oracle', 'DESIGN.md 4/C13')
